@@ -27,6 +27,7 @@ type EvalCtx struct {
 	inLoop bool
 	depth  int
 	outer  *State
+	prev   *State
 }
 
 func (f *Frame) evalCtx(st *State, reach string) *EvalCtx {
@@ -86,6 +87,8 @@ func (e *Engine) resolveType(pkg string, t *TypeExpr) (string, types.Type) {
 				return "Str", types.Typ[types.String]
 			case "ref":
 				return "Int", nil
+			case "struct{}":
+				return "Int", types.NewStruct(nil, nil)
 			case "error":
 				return "Int", types.Universe.Lookup("error").Type()
 			}
@@ -610,6 +613,12 @@ func (ev *EvalCtx) evalCall(e *Expr) (SVal, error) {
 		}
 		// inside old(), locals still denote... the entry state has no locals except parameters
 		return n.eval(e.Args[0])
+	case "prev":
+		if ev.prev == nil {
+			return SVal{}, fmt.Errorf("prev() used outside a transition clause")
+		}
+		n := ev.with(ev.prev)
+		return n.eval(e.Args[0])
 	case "outer":
 		if ev.outer == nil {
 			return SVal{}, fmt.Errorf("outer() used outside a nested loop")
@@ -881,7 +890,10 @@ func (ev *EvalCtx) modifiesObjects(cls []*Clause) (map[string][]string, error) {
 				out["H."+e.Args[0].String()] = append(out["H."+e.Args[0].String()], "*")
 				continue
 			}
-			if e.Op == "select" {
+			if e.Op == "call" && e.Name == "fields" && len(e.Args) == 1 {
+				// fields(x): every field of the object x points to
+				e = e.Args[0]
+			} else if e.Op == "select" {
 				base, err := ev.eval(e.Args[0])
 				if err != nil {
 					return out, err
@@ -955,6 +967,27 @@ func (ev *EvalCtx) useAxiom(u *Clause) {
 	e := u.Expr
 	if e.Op != "call" {
 		c.errorf("%s: use needs Name(args)", u.Where)
+		return
+	}
+	if e.Name == "card" && len(e.Args) == 1 {
+		// built-in: cardinality facts of a Go map (len == 0 iff no key)
+		m, err := ev.eval(e.Args[0])
+		if err != nil || m.GT == nil {
+			c.errorf("%s: use card: %v", u.Where, err)
+			return
+		}
+		mt, ok := m.GT.Underlying().(*types.Map)
+		if !ok {
+			c.errorf("%s: use card needs a map", u.Where)
+			return
+		}
+		dom, _, ln := c.eng.mapKeys(mt)
+		ks := c.eng.sortOf(mt.Key())
+		d := "(select " + c.heapTerm(ev.st, dom) + " " + m.T + ")"
+		l := "(select " + c.heapTerm(ev.st, ln) + " " + m.T + ")"
+		c.assume(ev.reach, "(<= 0 "+l+")")
+		c.assume(ev.reach, "(=> (= "+l+" 0) (forall ((k! "+ks+")) (! (not (select "+d+" k!)) :pattern ((select "+d+" k!)))))")
+		c.assume(ev.reach, "(=> (< 0 "+l+") (exists ((k! "+ks+")) (select "+d+" k!)))")
 		return
 	}
 	ax, ok := c.eng.cs.Axioms[e.Name]
